@@ -42,6 +42,31 @@ Theorem C06_only_grants_use_publishers :
   forall t s e, In e (all_edges t s) -> is_grant (fe_origin e) = true -> In e (publisher_edges t s).
 Proof. exact grant_edges_are_publisher_edges. Qed.
 
+(* at the level of certification: when grants are all that is on record for a crate, a version is certified for a
+   criterion ONLY IF crates.io says that very version was published by a user for whom a grant carrying the
+   criterion exists, on a day inside that grant's window *)
+Theorem C06_certified_by_grants_alone :
+  forall t s c v, (forall e, In e (all_edges t s) -> is_grant (fe_origin e) = true) ->
+  certified t s c v ->
+  exists pi p, nth_error (ps_publishers s) pi = Some p /\ p_ver p = v /\
+    ((exists imp ai w, wildcard_at s imp ai = Some w /\ w_user w = p_user p /\
+        (w_start w <= p_when p)%Z /\ (p_when p <= w_end w)%Z /\ cs_has c (from_list t (w_crit w)) = true)
+     \/
+     (exists tr, In tr (ps_trusted s) /\ t_user tr = p_user p /\
+        (t_start tr <= p_when p)%Z /\ (p_when p <= t_end tr)%Z /\ cs_has c (from_list t (t_crit tr)) = true)).
+Proof.
+  intros t s c v Hall Hc. unfold certified in Hc.
+  inversion Hc as [|e w He Hcrit Hrest Hfrom]; subst.
+  destruct (C06_grant_edges t s e He (Hall e He)) as [pi [p [Hp [Hf [Ht Hkind]]]]].
+  assert (Hv : p_ver p = v).
+  { rewrite Ht in Hrest. inversion Hrest as [|e2 w2 He2 _ _ Hfrom2]; subst; [reflexivity|].
+    destruct (C06_grant_edges t s e2 He2 (Hall e2 He2)) as [_ [_ [_ [Hf2 _]]]]. congruence. }
+  exists pi, p. split; [exact Hp|]. split; [exact Hv|].
+  destruct Hkind as [[imp [ai [w0 [_ [Hw [Hu [H1 [H2 Hcr]]]]]]]]|[tr [_ [Hin [Hu [H1 [H2 Hcr]]]]]]].
+  - left. exists imp, ai, w0. rewrite <- Hcr. auto.
+  - right. exists tr. rewrite <- Hcr. auto.
+Qed.
+
 Example C06_nonvacuous :
   exists e, In e (all_edges w_table w_store_b) /\ is_grant (fe_origin e) = true /\ fe_to e = Some 1.
 Proof. eexists. split; [vm_compute; left; reflexivity|]. split; reflexivity. Qed.
@@ -50,5 +75,19 @@ Example C06_other_user_gets_nothing :
   forall e, In e (all_edges w_table w_store_b) -> fe_to e <> Some 3.
 Proof. vm_compute. intros e [<-|[]]. discriminate. Qed.
 
+(* the hypothesis of C06_certified_by_grants_alone is met by the witness store of "b" (a wildcard audit and two
+   publisher records, nothing else), and version 1 is certified for safe-to-run there *)
+Example C06_grants_alone_nonvacuous :
+  (forall e, In e (all_edges w_table w_store_b) -> is_grant (fe_origin e) = true) /\ certified w_table w_store_b 0 1.
+Proof.
+  split.
+  - vm_compute. intros e [<-|[]]. reflexivity.
+  - unfold certified.
+    pose (e := hd {| fe_from := None; fe_to := None; fe_crit := 0; fe_origin := OExemption 0; fe_fresh := Stale |} (all_edges w_table w_store_b)).
+    change (fpath w_table w_store_b 0 (fe_from e) (Some 1)).
+    apply (fp_cons w_table w_store_b 0 e (Some 1)); [vm_compute; left; reflexivity|vm_compute; reflexivity|vm_compute; constructor].
+Qed.
+
 Print Assumptions C06_grant_edges.
 Print Assumptions C06_only_grants_use_publishers.
+Print Assumptions C06_certified_by_grants_alone.
